@@ -126,7 +126,7 @@ func (e *Env) Go(name string, f func()) {
 	}()
 }
 
-var frameRe = regexp.MustCompile(`github\.com/vmware/go-ipfix/(pkg|cmd)/([A-Za-z0-9_/]+)\.([^\s(]+)`)
+var frameRe = regexp.MustCompile(`github\.com/vmware/go-ipfix/(pkg|cmd)/([A-Za-z0-9_/]+)\.(\S+)`)
 
 // repoFrame returns the innermost go-ipfix (non-verifsim) function on a stack.
 func repoFrame(stack []byte) string {
@@ -138,9 +138,7 @@ func repoFrame(stack []byte) string {
 		if m == nil || strings.HasPrefix(m[2], "verifsim") {
 			continue
 		}
-		fn := m[3]
-		fn = strings.TrimSuffix(fn, "(...)")
-		return m[2] + "." + fn
+		return m[2] + "." + trimArgs(m[3])
 	}
 	return ""
 }
@@ -194,7 +192,15 @@ func (e *Env) Run() string {
 		e.Out.Choices = e.Sim.ChoicesLog
 		e.Out.Log = e.Sim.Log()
 	} else {
-		e.wg.Wait()
+		// race layer: no scheduler; a task that never finishes shows as "stuck" after the idle
+		// horizon of simulated time (the bubble's clock only moves when everything is blocked)
+		done := make(chan struct{})
+		go func() { e.wg.Wait(); close(done) }()
+		select {
+		case <-done:
+		case <-time.After(time.Duration(cfgOr(e.Plan, "idle_ns", int64(48*time.Hour)))):
+			res = "stuck"
+		}
 	}
 	e.Out.SimNanos = int64(time.Since(e.t0))
 	for k, v := range e.Net.Stats.Snapshot() {
@@ -294,3 +300,11 @@ func execute(t *testing.T, p *Prop, pl *plan.Plan, keepLog bool) (out *plan.Outc
 }
 
 var keepLogFlag bool
+
+// trimArgs cuts the argument list off a function name taken from a stack trace.
+func trimArgs(fn string) string {
+	if i := strings.LastIndex(fn, "("); i > 0 {
+		fn = fn[:i]
+	}
+	return strings.TrimSuffix(fn, "(...)")
+}
